@@ -901,6 +901,52 @@ theorem fact_all_scheduled_reads_pod_errors :
     Karp.Gen.C06Facts.allNonPendingCmps =
       ["len(lo.OmitBy(r.PodErrors, (func(p *corev1.Pod, err error) bool literal))) == 0"] := by decide
 
+/-! ## What the simulation may leave out (facts)
+
+`C06_feasible` speaks about "every non-pending pod" of the simulation.  Which pods the real simulation covers, and which of
+its errors it may ignore, is code outside the model; these regenerated facts pin the three places where a realistic change
+silently shrinks that set (each also has generated inputs and a corpus witness judged by the specification). -/
+
+/-- an ignorable pod error is one of a pod that was ALREADY unschedulable (`IsProvisionable`: unbound, marked unschedulable
+    by kube-scheduler) — never "phase Pending", which also holds of a pod bound to the candidate that is still starting -/
+theorem fact_ignorable_errors :
+    Karp.Gen.C06Facts.allNonPendingCalls = ["IsProvisionable"] ∧
+    Karp.Gen.C06Facts.nonPendingErrorsCalls = ["IsProvisionable"] := by decide
+
+/-- `pdb.Limits.isEvictable`: the `unhealthyPodEvictionPolicy: AlwaysAllow` exception for a pod that reports Ready=False is
+    taken BEFORE the blocker-specific test, so `CanEvictPods` (is the node a candidate?) and `isFullyBlocked` /
+    `IsCurrentlyReschedulable` (is the pod part of the simulation?) agree on it -/
+theorem fact_pdb_unhealthy_exception :
+    Karp.Gen.C06Facts.pdbIsEvictableOutline =
+      ["if !podutil.IsEvictable(pod, clk, recorder)", "return []client.ObjectKey{}, true", "end",
+       "matchingPDBs := lo.Filter(…)",
+       "if len(matchingPDBs) > 1", "return lo.Map(…), false", "end",
+       "for _, pdb := range matchingPDBs",
+       "if pdb.canAlwaysEvictUnhealthyPods",
+       "for _, c := range pod.Status.Conditions",
+       "if c.Type == v1.PodReady && c.Status == v1.ConditionFalse",
+       "return []client.ObjectKey{}, true",
+       "end", "end", "end",
+       "(other statement)",
+       "end",
+       "return []client.ObjectKey{}, true"] := by decide
+
+/-- NodeOverlay prices: the store writes an adjusted price into a fresh COPY of the offering (`&cloudprovider.Offering{…}`)
+    and shares the provider's object only where nothing is adjusted — a relative adjustment is applied once per call, to
+    the provider's price, and cannot compound over the several `GetInstanceTypes` calls of one disruption pass -/
+theorem fact_overlay_copies_offering :
+    Karp.Gen.C06Facts.applyPriceOverlaysOutline =
+      ["result := make(…)",
+       "for i, offering := range offerings",
+       "if ok",
+       "copiedOffering := &cloudprovider.Offering{…}",
+       "(other statement)",
+       "result[i] = copiedOffering",
+       "else",
+       "result[i] = offering",
+       "end", "end",
+       "return result"] := by decide
+
 /-! ## Price tables per NodePool
 
 Prices belong to the NodePool that buys: `Karp.Spec.Consolidation.Tables`.  The model needs no change — a candidate
